@@ -472,8 +472,13 @@ func checkRows(exp *model.Expect, got []string) string {
 func c01Exec(w *fw.Worker, c fw.Case) fw.Result {
 	var cc c01Case
 	c.Decode(&cc)
+	return c01Run(w, c01Setup(w), cc, nil)
+}
+
+// c01Run executes one program case against the graphs of env (also used by
+// C10 with stores of other drivers).
+func c01Run(w *fw.Worker, env *c01Env, cc c01Case, _ gdbi.GraphDB) fw.Result {
 	stmts := gq.StmtsFromJSON(cc.Stmts)
-	env := c01Setup(w)
 	_, _, terr := model.TypeCheck(stmts)
 	res := fw.HeldR(false, "")
 	res.AddSet("step_kinds", strings.Split(stepKey(stmts), ">")...)
